@@ -13,13 +13,14 @@ import (
 	"github.com/godaddy/asherah/go/appencryption"
 	"github.com/godaddy/asherah/go/securememory"
 	"pgregory.net/rapid"
+	"verif/backing"
 	"verif/kit"
 	"verif/world"
 )
 
 func TestMain(m *testing.M) {
 	kit.Main(m, "C14", "exploration",
-		"2-3 processes (own SessionFactory, own caches, rapid-drawn cache policies; shared expiry / interval / precision) race 1-2 encrypts each on one or two partitions from start states {cold, SK only, SK+IK expired, IK revoked, SK revoked}, with caches cold or pre-warmed before the state change, at a fixed virtual time so truncated creation stamps collide. "+
+		"2-3 processes (own SessionFactory, own caches, rapid-drawn cache policies; shared expiry / interval / precision) race 1-2 encrypts each on one or two partitions from start states {cold, SK only, SK+IK expired, IK revoked, SK revoked, SK revoked but not yet noticed, IK / SK revoked with the replacement falling into the revoked key's own creation window (its insert is refused as a duplicate)}, over the harness-owned table or (2/3 of the scenarios) a REAL metastore implementation behind the scheduling wrapper - MemoryMetastore, SQLMetastore (mysql / postgres / oracle dialects over the interpreting database/sql fake), DynamoDB v1 / v2 over the expression-evaluating fake; a shadow of every acknowledged insert detects a second acknowledged insert of the same (id, created) and any difference between the raw database rows and what was acknowledged, with caches cold or pre-warmed before the state change, at a fixed virtual time so truncated creation stamps collide. "+
 			"Each process blocks in its own metastore wrapper before every Load / LoadLatest / Store until a scheduler grants it; between grants exactly one process runs, so a schedule is a sequence of process choices and replays deterministically. "+
 			"Schedules are ENUMERATED by stateless depth-first search (re-run the prefix, take the next alternative): completely for 2 processes x 1 encrypt (and x 2 encrypts in the thorough tier), up to a budget otherwise, and drawn by rapid for 3 processes. "+
 			"Oracle per schedule: every encrypt returns a record; every record names an IK row and through it an SK row in the final store; the reference decryptor, a fresh process and EVERY OTHER racing process with its warm caches decrypt every record; every row is byte-identical to what it was when first inserted and none disappears; "+
@@ -122,6 +123,7 @@ type scenario struct {
 	encrypts []int  // per process: number of encrypts in the race
 	twoParts bool   // the second process works on another partition for its second encrypt
 	newPart  bool   // the race happens on a partition that has no IK yet
+	backend  string // "" = the harness-owned table; otherwise a real Metastore implementation over its fake database
 	fixed    *world.Fixed
 }
 
@@ -130,13 +132,23 @@ func (sc *scenario) String() string {
 	for i, p := range sc.fixed.Policies {
 		ps = append(ps, fmt.Sprintf("P%d{%s prewarm=%v encrypts=%d}", i, world.CacheClass(p), sc.prewarm[i], sc.encrypts[i]))
 	}
-	return fmt.Sprintf("state=%s newPartition=%v twoPartitions=%v exp=%s int=%s prec=%s %s", sc.state, sc.newPart, sc.twoParts, sc.fixed.Policies[0].ExpireKeyAfter, sc.fixed.Policies[0].RevokeCheckInterval, sc.fixed.Policies[0].CreateDatePrecision, strings.Join(ps, " "))
+	return fmt.Sprintf("metastore=%s state=%s newPartition=%v twoPartitions=%v exp=%s int=%s prec=%s %s", sc.backendName(), sc.state, sc.newPart, sc.twoParts, sc.fixed.Policies[0].ExpireKeyAfter, sc.fixed.Policies[0].RevokeCheckInterval, sc.fixed.Policies[0].CreateDatePrecision, strings.Join(ps, " "))
 }
 
-var states = []string{"cold", "sk-only", "expired", "ik-revoked", "sk-revoked", "sk-revoked-unnoticed"}
+func (sc *scenario) backendName() string {
+	if sc.backend == "" {
+		return "harness-table"
+	}
+	return sc.backend
+}
+
+var backends = []string{"", "", "", "memory", "sql-mysql", "sql-postgres", "sql-oracle", "dynamodb-v1", "dynamodb-v2"}
+
+var states = []string{"cold", "sk-only", "expired", "ik-revoked", "sk-revoked", "sk-revoked-unnoticed", "ik-revoked-same-window", "sk-revoked-same-window"}
 
 func drawScenario(t *rapid.T, nprocs int) *scenario {
 	sc := &scenario{state: rapid.SampledFrom(states).Draw(t, "state"), twoParts: rapid.IntRange(0, 3).Draw(t, "twoParts") == 0}
+	sc.backend = rapid.SampledFrom(backends).Draw(t, "metastore")
 	exp := rapid.SampledFrom([]time.Duration{2 * time.Minute, time.Hour}).Draw(t, "expire")
 	iv := rapid.SampledFrom([]time.Duration{time.Second, 10 * time.Second, time.Hour}).Draw(t, "interval")
 	prec := rapid.SampledFrom([]time.Duration{time.Second, time.Minute}).Draw(t, "precision")
@@ -146,7 +158,12 @@ func drawScenario(t *rapid.T, nprocs int) *scenario {
 		iv = time.Hour
 		sc.newPart = true
 	}
-	sc.fixed = &world.Fixed{Start: time.Unix(1_700_000_000+int64(rapid.IntRange(0, 59).Draw(t, "start")), 0), Service: "svc", Product: "prod", Parts: []string{"part0", "part1"}}
+	startMax := 59
+	if strings.HasSuffix(sc.state, "-same-window") {
+		// the replacement key falls into the creation window of the revoked key: its insert is refused as a duplicate
+		iv, prec, startMax = time.Second, time.Minute, 45
+	}
+	sc.fixed = &world.Fixed{Start: time.Unix(1_700_000_040+int64(rapid.IntRange(0, startMax).Draw(t, "start")), 0), Service: "svc", Product: "prod", Parts: []string{"part0", "part1"}}
 	for i := 0; i < nprocs; i++ {
 		p := appencryption.NewCryptoPolicy()
 		world.DrawCaches(t, p, world.Options{})
@@ -171,7 +188,19 @@ type result struct {
 // pick, when set, overrides the default choice after the prefix.
 func run(t *rapid.T, sc *scenario, prefix []int, pick func(n int) int) *result {
 	res := &result{}
-	w := world.New(t, world.Options{Fixed: sc.fixed, SmallPayloads: true, NoRetainAEAD: true, HomogeneousTime: true})
+	opts := world.Options{Fixed: sc.fixed, SmallPayloads: true, NoRetainAEAD: true, HomogeneousTime: true}
+	if sc.backend != "" {
+		b := backing.New(sc.backend)
+		defer b.Done()
+		defer func() {
+			if u := b.Unsupported(); len(u) > 0 {
+				fmt.Printf("VERIF-INCONCLUSIVE fake cannot interpret: %v\n", u)
+				t.Fatalf("inconclusive: the fake cannot interpret %v", u)
+			}
+		}()
+		opts.Backing = b
+	}
+	w := world.New(t, opts)
 	defer w.Teardown()
 	part := w.Parts[0]
 	pol := w.Procs[0].Policy
@@ -218,6 +247,12 @@ func run(t *rapid.T, sc *scenario, prefix []int, pick func(n int) int) *result {
 		case "sk-revoked":
 			w.RevokeRow(w.SKID(), w.Store.Latest(w.SKID()).Created, true)
 			w.Advance(2*pol.RevokeCheckInterval + pol.CreateDatePrecision + time.Second)
+		case "ik-revoked-same-window":
+			w.RevokeRow(w.IKID(part), w.Store.Latest(w.IKID(part)).Created, false)
+			w.Advance(2*pol.RevokeCheckInterval + time.Second)
+		case "sk-revoked-same-window":
+			w.RevokeRow(w.SKID(), w.Store.Latest(w.SKID()).Created, true)
+			w.Advance(2*pol.RevokeCheckInterval + time.Second)
 		case "sk-revoked-unnoticed":
 			w.RevokeRow(w.SKID(), w.Store.Latest(w.SKID()).Created, true)
 			w.Advance(pol.CreateDatePrecision + time.Second)
@@ -432,7 +467,7 @@ func TestTwoProcessesExhaustive(t *testing.T) {
 		if kit.Thorough() && rapid.IntRange(0, 3).Draw(t, "second") == 0 {
 			sc.encrypts[rapid.IntRange(0, 1).Draw(t, "who")] = 2
 		}
-		n, nt, complete := exhaust(t, sc, kit.Pick(6000, 60000))
+		n, nt, complete := exhaust(t, sc, kit.Pick(2500, 60000))
 		kit.Rec.Enumerated(int64(n), int64(nt))
 		if complete {
 			kit.Rec.Label("scenario-exhausted")
@@ -440,6 +475,7 @@ func TestTwoProcessesExhaustive(t *testing.T) {
 			kit.Rec.Label("scenario-budget-hit")
 		}
 		kit.Rec.Label("state:" + sc.state)
+		kit.Rec.Label("metastore:" + sc.backendName())
 	})
 }
 
@@ -458,5 +494,6 @@ func TestThreeProcessesSampled(t *testing.T) {
 			return map[string]any{"scenario": sc.String(), "schedule": strings.Join(r.trace, " "), "stores_refused": r.refused}
 		})
 		kit.Rec.Label("state:" + sc.state)
+		kit.Rec.Label("metastore:" + sc.backendName())
 	})
 }
